@@ -318,6 +318,19 @@ func c11Body(double bool) func(rc *RunCtx) {
 				}
 			}
 		}
+		// environment fault: the agent's server-time synchronisation moves dateutil's global
+		// offset while consumers may be inside a timed get (the queue must not care)
+		if simrt.ChanceF(1, 4) {
+			nSync := 1 + simrt.ChooseF(2)
+			simrt.OnReset(func() { dateutil.SetDelta(0) })
+			simrt.GoNamed("timesync", func() {
+				for i := 0; i < nSync; i++ {
+					simrt.Sleep(time.Duration(simrt.ChooseF(40000)) * time.Microsecond)
+					dateutil.SetDelta([]int64{3000, -3000, 50, -50, 600000}[simrt.ChooseF(5)])
+					simrt.Fault("server_time_sync")
+				}
+			})
+		}
 		// quiescence: let everything run, including timed gets
 		simrt.Settle(int64(2 * time.Second))
 		// no stranding: nobody may be parked in a blocking get while the queue holds elements
